@@ -309,21 +309,29 @@ def Bindable (F : Facts) (σ : State) (v : Val) : Prop :=
 
 /-- an invariant `J` of (global state, import-bound locals) that every step of code in scope
 `sc` preserves, as long as the import machinery is only asked for modules that `allow` -/
-structure StepInv (F : Facts) (sc : Scope) (imp : Imp) (allow : ModId → Prop)
+structure StepInv (F : Facts) (sc : Scope) (imp : Imp) (allow : ModId → Prop) (allowG : Prop)
     (J : State → Ns → Prop) : Prop where
   bind : ∀ σ loc n v, J σ loc → Bindable F σ v →
     J (bindIn F sc loc σ n v).1 (bindIn F sc loc σ n v).2
   unbindL : ∀ σ loc n, J σ loc → J σ (erase n loc)
   unbindG : ∀ σ loc n, sc.fn.isSome = false → J σ loc → J (σ.set F sc.mod n none) loc
+  /-- a call-time write to the module's globals (`global n; n = …` / `del n`), where allowed -/
+  gset : ∀ σ loc n v, allowG → (v = none ∨ v = some .obj) → J σ loc → J (σ.set F sc.mod n v) loc
   imp : ∀ c σ loc σ' exc, allow c → J σ loc → imp c σ = .ok (σ', exc) → J σ' loc
 
 /-- after a successful import the module is in `sys.modules` -/
 def ImpLoads (imp : Imp) : Prop := ∀ c σ σ', imp c σ = .ok (σ', none) → σ'.statusOf c ≠ .absent
 
 section Master
-variable {F : Facts} {sc : Scope} {imp : Imp} {allow : ModId → Prop} {J : State → Ns → Prop}
+variable {F : Facts} {sc : Scope} {imp : Imp} {allow : ModId → Prop} {allowG : Prop}
+  {J : State → Ns → Prop}
 
-theorem execFrom_step (h : StepInv F sc imp allow J) (hl : ImpLoads imp) (m : ModId) (n asn : Name)
+/-- events that write the module's globals from a function body -/
+def Ev.writesGlobals : Ev → Bool
+  | .gbind _ | .gunbind _ => true
+  | _ => false
+
+theorem execFrom_step (h : StepInv F sc imp allow allowG J) (hl : ImpLoads imp) (m : ModId) (n asn : Name)
     (hc : ∀ c, F.childOf m n = some c → allow c) (loc : Ns) (σ : State) (out : Out)
     (hJ : J σ loc) (he : execFrom F imp sc m n asn loc σ = .ok out) : J out.σ out.loc := by
   unfold execFrom at he
@@ -348,7 +356,7 @@ theorem execFrom_step (h : StepInv F sc imp allow J) (hl : ImpLoads imp) (m : Mo
         · cases he
           exact h.bind _ _ _ _ h1 (Or.inr (Or.inl ⟨c, rfl, hl _ _ _ hi⟩))
 
-theorem execFroms_step (h : StepInv F sc imp allow J) (hl : ImpLoads imp) (m : ModId)
+theorem execFroms_step (h : StepInv F sc imp allow allowG J) (hl : ImpLoads imp) (m : ModId)
     (hc : ∀ n c, F.childOf m n = some c → allow c) :
     ∀ (ns : List Name) (loc : Ns) (σ : State) (out : Out), J σ loc →
       execFroms F imp sc m ns loc σ = .ok out → J out.σ out.loc := by
@@ -368,9 +376,10 @@ theorem execFroms_step (h : StepInv F sc imp allow J) (hl : ImpLoads imp) (m : M
 
 /-- **the master induction**: whatever the mode (executing, unwinding an `ImportError`, skipping
 a handler), whatever the regions rolled back -/
-theorem execEvs_step (h : StepInv F sc imp allow J) (hl : ImpLoads imp) :
+theorem execEvs_step (h : StepInv F sc imp allow allowG J) (hl : ImpLoads imp) :
     ∀ (evs : List Ev) (mode : Mode) (saved : List (State × Ns)) (loc : Ns) (σ : State) (out : Out),
-      (∀ e ∈ evs, ∀ t ∈ evTargets F e, allow t) → J σ loc → (∀ s ∈ saved, J s.1 s.2) →
+      (∀ e ∈ evs, (∀ t ∈ evTargets F e, allow t) ∧ (Ev.writesGlobals e = true → allowG)) →
+      J σ loc → (∀ s ∈ saved, J s.1 s.2) →
       execEvs F imp sc evs mode saved loc σ = .ok out → J out.σ out.loc := by
   intro evs
   induction evs with
@@ -379,9 +388,10 @@ theorem execEvs_step (h : StepInv F sc imp allow J) (hl : ImpLoads imp) :
     cases mode <;> (simp only [execEvs] at he; cases he; exact hJ)
   | cons ev rest ih =>
     intro mode saved loc σ out hT hJ hs he
-    have hTr : ∀ e ∈ rest, ∀ t ∈ evTargets F e, allow t :=
+    have hTr : ∀ e ∈ rest, (∀ t ∈ evTargets F e, allow t) ∧ (Ev.writesGlobals e = true → allowG) :=
       fun e he' => hT e (List.mem_cons_of_mem _ he')
-    have hT0 : ∀ t ∈ evTargets F ev, allow t := hT ev (List.mem_cons_self ..)
+    have hT0 : ∀ t ∈ evTargets F ev, allow t := (hT ev (List.mem_cons_self ..)).1
+    have hG0 : Ev.writesGlobals ev = true → allowG := (hT ev (List.mem_cons_self ..)).2
     have hpop : ∀ (s : State) (l : Ns) (more : List (State × Ns)), saved = (s, l) :: more →
         J s l ∧ ∀ t ∈ more, J t.1 t.2 := by
       intro s l more hsv
@@ -502,6 +512,14 @@ theorem execEvs_step (h : StepInv F sc imp allow J) (hl : ImpLoads imp) :
       | tryBegin => simp only [execEvs] at he; exact ih _ _ _ _ _ hTr hJ hs he
       | tryExcept => simp only [execEvs] at he; exact ih _ _ _ _ _ hTr hJ hs he
       | tryEnd => simp only [execEvs] at he; exact ih _ _ _ _ _ hTr hJ hs he
+      | gbind n =>
+        simp only [execEvs] at he
+        exact ih _ _ _ _ _ hTr (h.gset _ _ _ _ (hG0 rfl) (Or.inr rfl) hJ) hs he
+      | gunbind n =>
+        simp only [execEvs] at he
+        split at he
+        · exact ih _ _ _ _ _ hTr (h.gset _ _ _ _ (hG0 rfl) (Or.inl rfl) hJ) hs he
+        · cases he
 
 end Master
 
@@ -523,10 +541,11 @@ theorem Stable.bindIn {F : Facts} {P : State → Prop} (hP : Stable F P) (sc : S
 
 theorem Stable.stepInv {F : Facts} {P : State → Prop} (hP : Stable F P) (sc : Scope) (imp : Imp)
     (himp : ∀ c σ σ' exc, P σ → imp c σ = .ok (σ', exc) → P σ') :
-    StepInv F sc imp (fun _ => True) (fun σ _ => P σ) where
+    StepInv F sc imp (fun _ => True) True (fun σ _ => P σ) where
   bind := fun σ loc n v h _ => hP.bindIn sc loc σ n v h
   unbindL := fun _ _ _ h => h
   unbindG := fun _ _ _ _ h => hP.set _ _ _ _ h
+  gset := fun _ _ _ _ _ _ h => hP.set _ _ _ _ h
   imp := fun c σ _ σ' exc _ h hi => himp c σ σ' exc h hi
 
 /-- whatever its outcome, an import leaves its module with a status other than `absent` -/
@@ -595,10 +614,10 @@ theorem importMod_stable {F : Facts} {P : State → Prop} (hP : Stable F P) :
         · rename_i σ1 loc1 x h1
           cases hh
           exact hP.status _ _ _ (by decide)
-            (execEvs_step hstep (impLoads_importMod F k) _ _ _ _ _ _ (fun _ _ _ _ => trivial)
+            (execEvs_step hstep (impLoads_importMod F k) _ _ _ _ _ _ (fun _ _ => ⟨fun _ _ => trivial, fun _ => trivial⟩)
               (hP.status _ _ _ (by decide) h0) (by simp) h1)
         · rename_i σ1 loc1 h1
-          have h2 : P σ1 := execEvs_step hstep (impLoads_importMod F k) _ _ _ _ _ _ (fun _ _ _ _ => trivial)
+          have h2 : P σ1 := execEvs_step hstep (impLoads_importMod F k) _ _ _ _ _ _ (fun _ _ => ⟨fun _ _ => trivial, fun _ => trivial⟩)
               (hP.status _ _ _ (by decide) h0) (by simp) h1
           have h3 : P (σ1.setStatus m .done) := hP.status _ _ _ (by decide) h2
           split at hh
@@ -618,7 +637,7 @@ theorem callFn_stable {F : Facts} {P : State → Prop} (hP : Stable F P) (m : Mo
   · rename_i out h1
     cases he
     exact execEvs_step (hP.stepInv _ _ (fun c s s' x hs hc => importMod_stable hP _ c s s' x hs hc))
-      (impLoads_importMod F _) _ _ _ _ _ _ (fun _ _ _ _ => trivial) h (by simp) h1
+      (impLoads_importMod F _) _ _ _ _ _ _ (fun _ _ => ⟨fun _ _ => trivial, fun _ => trivial⟩) h (by simp) h1
 
 /-- "module `c` has been put into `sys.modules`" (it is there, or its import failed) is stable -/
 theorem stable_loaded (F : Facts) (c : ModId) : Stable F (fun σ => σ.statusOf c ≠ .absent) where
@@ -701,7 +720,7 @@ theorem bindable_mod {F : Facts} {σ : State} {v : Val} (h : AttrInv F σ) (hb :
 theorem attr_stepInv (F : Facts) (sc : Scope) (imp : Imp)
     (hinv : ∀ c σ σ' exc, AttrInv F σ → imp c σ = .ok (σ', exc) → AttrInv F σ')
     (hgrow : ∀ c d σ σ' exc, σ.statusOf d ≠ .absent → imp c σ = .ok (σ', exc) → σ'.statusOf d ≠ .absent) :
-    StepInv F sc imp (fun _ => True) (fun σ loc => AttrInv F σ ∧ LocInv σ loc) where
+    StepInv F sc imp (fun _ => True) True (fun σ loc => AttrInv F σ ∧ LocInv σ loc) where
   bind := by
     intro σ loc n v ⟨h, hl⟩ hb
     have hv := bindable_mod h hb
@@ -715,6 +734,11 @@ theorem attr_stepInv (F : Facts) (sc : Scope) (imp : Imp)
   unbindL := fun σ loc n ⟨h, hl⟩ => ⟨h, hl.erase n⟩
   unbindG := fun σ loc n _ ⟨h, hl⟩ =>
     ⟨h.set _ _ _ (fun c hc => by cases hc), hl.mono (fun c hc => by simpa using hc)⟩
+  gset := by
+    intro σ loc n v _ hv ⟨h, hl⟩
+    refine ⟨h.set _ _ _ ?_, hl.mono (fun c hc => by simpa using hc)⟩
+    intro c hc
+    rcases hv with rfl | rfl <;> cases hc
   imp := fun c σ loc σ' exc _ ⟨h, hl⟩ hi =>
     ⟨hinv c σ σ' exc h hi, hl.mono (fun d hd => hgrow c d σ σ' exc hd hi)⟩
 
@@ -744,7 +768,7 @@ theorem importMod_inv (F : Facts) :
         intro σ₀ h0 hh
         have hrun : ∀ out, execEvs F (importMod F k) ⟨m, none⟩ M.evs .run [] [] (σ₀.setStatus m .running) = .ok out →
             AttrInv F out.σ := fun out h1 =>
-          (execEvs_step hstep (impLoads_importMod F k) _ _ _ _ _ _ (fun _ _ _ _ => trivial)
+          (execEvs_step hstep (impLoads_importMod F k) _ _ _ _ _ _ (fun _ _ => ⟨fun _ _ => trivial, fun _ => trivial⟩)
             ⟨h0.setStatus m .running (by decide), LocInv.nil _⟩ (by simp) h1).1
         split at hh
         · cases hh
@@ -779,7 +803,7 @@ theorem callFn_inv (F : Facts) (m : ModId) (f : Func) (σ σ' : State) (h : Attr
     cases he
     exact (execEvs_step (attr_stepInv F _ _ (fun c s s' x hs hc => importMod_inv F _ c s s' x hs hc)
         (fun c d s s' x hd hc => sys_modules_grow F _ c d s s' x hd hc))
-      (impLoads_importMod F _) _ _ _ _ _ _ (fun _ _ _ _ => trivial) ⟨h, LocInv.nil _⟩ (by simp) h1).1
+      (impLoads_importMod F _) _ _ _ _ _ _ (fun _ _ => ⟨fun _ _ => trivial, fun _ => trivial⟩) ⟨h, LocInv.nil _⟩ (by simp) h1).1
 
 /-! ### instance 3: the static import closure bounds what an import loads -/
 
@@ -802,7 +826,7 @@ theorem Within.setStatus {S : Nat} {σ : State} (c : Nat) (s : Status) (hm : mem
 
 theorem within_stepInv (F : Facts) (S : Nat) (sc : Scope) (imp : Imp)
     (himp : ∀ c, memSet S c = true → ∀ σ σ' exc, Within S σ → imp c σ = .ok (σ', exc) → Within S σ') :
-    StepInv F sc imp (fun c => memSet S c = true) (fun σ _ => Within S σ) where
+    StepInv F sc imp (fun c => memSet S c = true) True (fun σ _ => Within S σ) where
   bind := by
     intro σ loc n v h _
     unfold bindIn
@@ -811,6 +835,7 @@ theorem within_stepInv (F : Facts) (S : Nat) (sc : Scope) (imp : Imp)
     · exact h.set F _ _ _
   unbindL := fun _ _ _ h => h
   unbindG := fun _ _ _ _ h => h.set F _ _ _
+  gset := fun _ _ _ _ _ _ h => h.set F _ _ _
   imp := fun c σ _ σ' exc hc h hi => himp c hc σ σ' exc h hi
 
 theorem closed_targets {F : Facts} {S : Nat} (hS : closedSetB F S = true) (m : ModId) (M : Module)
@@ -852,7 +877,8 @@ theorem importMod_within {F : Facts} {S : Nat} (hS : closedSetB F S = true) :
         intro σ₀ h0 hh
         have hrun : ∀ out, execEvs F (importMod F k) ⟨m, none⟩ M.evs .run [] [] (σ₀.setStatus m .running) = .ok out →
             Within S out.σ := fun out h1 =>
-          execEvs_step hstep (impLoads_importMod F k) _ _ _ _ _ _ (closed_targets hS m M hm hM)
+          execEvs_step hstep (impLoads_importMod F k) _ _ _ _ _ _
+            (fun e he => ⟨closed_targets hS m M hm hM e he, fun _ => trivial⟩)
             (h0.setStatus m .running hm) (by simp) h1
         split at hh
         · cases hh
